@@ -75,7 +75,11 @@ func (vv *VarVal) Hierarchy() []Symbol {
 
 // Eval the object.
 func (vv *VarVal) Eval(s *Scope, depth int) Object {
-	return vv.Value()
+	val := vv.Value()
+	if val == Unbound {
+		UnboundVariablePanic(s, depth, Symbol(vv.name), "Variable %s is unbound.", vv.name)
+	}
+	return val
 }
 
 func newUnboundVar(name string) *VarVal {
